@@ -432,6 +432,20 @@ func (g *Gen) transCall(x *Expr, env *Env) TV {
 	case "fmtany":
 		a := g.trans(x.Args[0], env)
 		return TV{"(fmt.any " + a.T + ")", SStr, types.Typ[types.String]}
+	case "loopidx":
+		// loopidx(N): the range-index variable of loop N of the function under verification
+		n := int(x.Args[0].Int)
+		for h, ord := range g.headOrd {
+			if ord != n {
+				continue
+			}
+			for _, in := range g.fn.Blocks[h].Instrs {
+				if phi, ok := in.(*ssa.Phi); ok && phi.Comment == "rangeindex" {
+					return TV{g.v(phi), SInt, types.Typ[types.Int]}
+				}
+			}
+		}
+		panic(specErr(x, "loop %d has no range index", n))
 	case "offof":
 		a := g.trans(x.Args[0], env)
 		if a.S != SSlc {
